@@ -364,6 +364,7 @@ type CoreAPI struct {
 	coreiface.CoreAPI
 	Peer     peer.ID
 	DagStore *MemDag
+	Files    *Unixfs
 }
 
 type keyAPI struct {
